@@ -98,8 +98,21 @@ def build_coq():
         rc, out = sh("coq_makefile -f _CoqProject -o Makefile", cwd=COQ)
         if rc != 0:
             return False, out
-    rc, out = sh(f"timeout 3000 make -j{NCPU}", cwd=COQ)
+    # translator: the hash-iteration sites of the current /repo sources (only Props/C06.v depends on them)
+    try:
+        import sites
+        sites.regenerate(VERIF, REPO)
+    except Exception as e:  # a source tree the scanner cannot read is a broken obligation of C06, not of the build
+        log(f"sites.py failed: {e}")
+    rc, out = sh(f"timeout 3000 make -k -j{NCPU}", cwd=COQ)
     return rc == 0, out
+
+
+def prop_uptodate(prop_file):
+    """the compiled property file and everything it depends on are current (used to keep a failure in one
+    property's files from alarming the others)"""
+    rc, _ = sh(f"make -q Props/{prop_file}.vo", cwd=COQ)
+    return rc == 0
 
 
 def build_ocaml():
@@ -438,9 +451,10 @@ class Check:
         """Builds everything and re-checks the theorems of Props/<prop_file>.v."""
         with BuildLock():
             ok, out = build_coq()
-            self.coq_ok = ok
             if not ok:
                 log(out[-3000:])
+                ok = prop_uptodate(prop_file)     # some other property's file does not build: not ours
+            self.coq_ok = ok
             bad = scan_forbidden()
             self.obligation("no Admitted/Axiom/Parameter/guard switches in the development", not bad, "; ".join(bad[:5]))
             thms = theorems_in(prop_file)
